@@ -356,9 +356,14 @@ def oracle_unchanged_on_error(script, obs, classes=None):
     prev = None
     for k, (op, st) in enumerate(zip(script, obs)):
         cur = (tuple(st["handles"]), st["used"], st["locked"])
-        if st["err"] == 1 and prev is not None and op[0] in (4, 5, 6, 7, 8, 9, 10, 11, 29, 33, 34, 35, 36, 37, 28):
+        # single-entity operations, creations, and the batch forms whose checks precede every change
+        if st["err"] == 1 and prev is not None and op[0] in (0, 1, 2, 3, 4, 5, 6, 7, 8, 9, 10, 11, 29, 30, 31, 33, 34, 35, 36, 37, 28):
             if cur != prev:
                 return k, "%s panicked but changed the world" % OP_NAMES.get(op[0], op[0])
+        # whatever panicked: the lock state is as before the call (op 18 is a composite of the harness:
+        # Query + Next... + Close; if Next panics the query is still open and rightly holds its lock bit)
+        if st["err"] == 1 and prev is not None and cur[2] != prev[2] and op[0] != 18:
+            return k, "%s panicked and left the world %s" % (OP_NAMES.get(op[0], op[0]), "locked" if cur[2] else "unlocked")
         prev = cur
     return None
 
@@ -507,7 +512,7 @@ PROPS = {
     "C10": dict(streams=[("misuse", 180)], proj=proj_err_state, theorems=["Properties/C10.v"],
                 oracles=[oracle_unchanged_on_error], key_ops=set(range(0, 38))),
     "C11": dict(streams=[("store", 100), ("shrink", 60)], proj=proj_cells, theorems=["Properties/C11.v"],
-                oracles=[oracle_zero_beyond_len], key_ops={5, 7, 8, 11, 13, 14}),
+                oracles=[oracle_zero_beyond_len], key_ops={5, 7, 8, 11, 13, 14}, special="gcsafe"),
     "C12": dict(streams=[("store", 60), ("relations", 60)], proj=proj_all_api, theorems=["Properties/C12.v"],
                 oracles=[], key_ops=set(range(0, 39)), special="determinism"),
     "C13": dict(streams=[("lock", 60)], proj=proj_lock, theorems=["Properties/C13.v"], oracles=[], key_ops={19, 20, 21},
@@ -764,14 +769,19 @@ def _run(pid, tier, seed, replay, cfg, mult, violations, notes, tmp, t0):
 
     # 3. witnesses of repaired defects
     race = cfg.get("special") == "race"
-    okw, outw, ran = run_witnesses(pid, race=race)
-    coverage["witnesses_run"] = ran
-    if not okw:
-        fails = re.findall(r"--- FAIL: (\S+)", outw)
-        path = write_replay(pid, "witness", dict(detail="a repaired defect is back: witness program fails", tests=fails,
-                                                   how_to_run="cd /verif/harness && GOFLAGS=-mod=mod GOPROXY=off go test -count=1 %s-run '%s' ./witness" % ("-race " if race else "", "|".join(fails) or "TestWitness_" + pid),
-                                                   output=outw[-3000:]))
-        violations.append((path, ""))
+    # (for the build-configuration property the witnesses run under all four tag combinations)
+    wtags = ["", "ark_debug", "ark_tiny", "ark_tiny,ark_debug"] if cfg.get("special") == "builds" else [""]
+    for wt in wtags:
+        okw, outw, ran = run_witnesses(pid, tags=wt, race=race)
+        coverage["witnesses_run"] = ran
+        if not okw:
+            fails = re.findall(r"--- FAIL: (\S+)", outw)
+            path = write_replay(pid, "witness", dict(detail="a repaired defect is back: witness program fails" + (" (build tags %s)" % wt if wt else ""), tests=fails,
+                                                       how_to_run="cd /verif/harness && GOFLAGS=-mod=mod GOPROXY=off go test -count=1 %s%s-run '%s' ./witness" % (
+                                                           "-race " if race else "", "-tags %s " % wt if wt else "", "|".join(fails) or "TestWitness_" + pid),
+                                                       output=outw[-3000:]))
+            violations.append((path, ""))
+            break
 
     # 4. correspondence streams
     runs = []
